@@ -188,6 +188,8 @@ def evaluate(dep, program):
         vv, info = judge_iterative(dep, rec, L, PROPERTY, probes)
         v += vv
     probes["lstar_evals"] = L.evals
+    for rec_ in dep.results_changed_after_return():
+        v.append(Violation("C14", "C14.result-mutated", "C14:%s:result-returned-earlier-was-changed-by-a-later-call" % rec_["op"]["op"], "the object returned by op %s no longer holds the values it held when it was returned" % (rec_["op"],)))
     for li, lib in enumerate(dep.world.libraries):
         bad = lib.modified_in_place()
         if bad:
